@@ -1520,6 +1520,7 @@ def cli_event(binary, prof, opts, lines, idx, timeout=120, keep_snaps=False, ext
             dval = int(o[i + 1])
         elif x.startswith('-d='):
             dval = int(x[3:])
+    extra = dict(extra or {}, wall_ms=int(r['wall'] * 1000))
 
     def snap_rec(s):
         return {'header': cli.cps(s['header']), 'sep': cli.cps(s['sep']), 'rows': [cli.cps(x) for x in s['rows']],
